@@ -14,6 +14,9 @@ CHECKS = {
  "C05": dict(technique="differential property testing (proptest): cross-feature agreement of the four resolvers at every usage",
              text="Generated-input search; oracle is agreement between go-to-definition, the available-fixtures view, the outgoing-call resolver and position lookup, observed through probe tests. Exploration only.",
              note="trusted: nothing beyond the harness (pure cross-feature comparison)", ref="DESIGN.md 4 C05", engine="vengine"),
+ "C07": dict(technique="metamorphic stateful property testing (proptest op sequences): warm index with interleaved queries == cold twin with the same analyses",
+             text="Generated-input search over programs of analyses, edits and queries; oracle is equality of every warm answer with the answer of a cold twin index. Exploration only.",
+             note="trusted: the implementation on a fresh database as reference; in-memory paths for the main tier", ref="DESIGN.md 4 C07", engine="vengine"),
 }
 PENDING = {
 }
